@@ -64,6 +64,20 @@ func (fv *FuncVer) afterCall(st *State, calleeName string) {
 	for _, u := range ups {
 		st.globals["gl:"+u.name] = u.v
 	}
+	// `assumeafter <callee> [label] : expr`: an explicit, unchecked assumption about the
+	// results of calls made so far (listed in the evidence)
+	for _, cl := range fv.block.ClausesOf("assumeafter") {
+		if !(cl.Target == calleeName || strings.HasSuffix(calleeName, "."+cl.Target) || strings.HasSuffix(calleeName, ")."+cl.Target)) {
+			continue
+		}
+		env := fv.frameEnv(st, st.top())
+		for k, v := range fv.entryVars {
+			if _, ok := env.vars[k]; !ok {
+				env.vars[k] = v
+			}
+		}
+		st.assume(fv.evalBool(env, cl.Expr))
+	}
 }
 
 func (fv *FuncVer) bindResult(st *State, res ssa.Value, r Val) {
@@ -478,6 +492,9 @@ func (fv *FuncVer) havocAll(st *State, why string) {
 	}
 	nr := fv.ctx.Fresh("nr", SInt)
 	st.assume(IGe(nr, st.nextRef))
+	if nr.Sym != nil {
+		nr.Sym.Lower = st.nextRef
+	}
 	st.nextRef = nr
 	fv.note(st, "havoc: "+why)
 	if os.Getenv("GOCV_DEBUG_HAVOC") != "" {
@@ -529,6 +546,9 @@ func (fv *FuncVer) havocKeys(st *State, keys []string) {
 	}
 	nr := fv.ctx.Fresh("nr", SInt)
 	st.assume(IGe(nr, st.nextRef))
+	if nr.Sym != nil {
+		nr.Sym.Lower = st.nextRef
+	}
 	st.nextRef = nr
 }
 
